@@ -88,6 +88,16 @@ pub fn check(tape: &[u32]) -> CheckResult {
             PalEntry { rgba: [rgb[0], rgb[1], rgb[2], [255u8, 255, 0, 100][(r.next() % 4) as usize]], name: None }
         })
         .collect();
+    // extreme colours at extreme indices (all-ones / all-zeros words are what hand-rolled tables use as markers)
+    if t.chance(1, 3) {
+        let extreme = [[255u8, 255, 255], [0, 0, 0], [255, 255, 254], [254, 255, 255], [0, 0, 1], [255, 0, 0]];
+        for id in [0u32, 1, 254, 255, 256, first, first + n as u32 - 1] {
+            if id >= first && ((id - first) as usize) < entries.len() && t.chance(1, 2) {
+                let c = extreme[t.below(extreme.len() as u32) as usize];
+                entries[(id - first) as usize].rgba[..3].copy_from_slice(&c);
+            }
+        }
+    }
     // duplicates crossing the 256 boundary
     if n > 3 && t.chance(1, 2) {
         let a = t.below(n as u32) as usize;
@@ -186,6 +196,17 @@ pub fn check(tape: &[u32]) -> CheckResult {
         let a = t.u8_biased();
         let got = mapper.lookup(rgb[0], rgb[1], rgb[2], a);
         labels.push(lookup_ok(rgb, a, got)?.to_string());
+    }
+    // the extreme colours and the colours at the extreme indices, opaque
+    for rgb in [[255u8, 255, 255], [0, 0, 0], [255, 255, 254], [254, 255, 255], [0, 0, 1], [255, 0, 0]] {
+        let got = mapper.lookup(rgb[0], rgb[1], rgb[2], 255);
+        labels.push(lookup_ok(rgb, 255, got)?.to_string());
+    }
+    for (id, c) in by_id.iter() {
+        if [0u32, 1, 254, 255, 256].contains(id) || *id == first {
+            let got = mapper.lookup(c[0], c[1], c[2], 255);
+            labels.push(lookup_ok(*c, 255, got)?.to_string());
+        }
     }
     // a second mapper built from the SAME palette with other options must follow its own options
     {
